@@ -106,7 +106,7 @@ Qed.
 
 (* three messages [7], [], [8;9] (18 bytes on the wire), source Pending before the first and the
    third, the byte stream cut after bytes 2, 5 and 6 - inside the first prefix, at its end and
-   inside... - with a Pending in between, then the server's OK trailers *)
+   after the first payload byte - with a Pending in between, then the server's OK trailers *)
 Definition ex_cfg : Encoder.cfg unit := Encoder.mkCfg None false None 8192 32768.
 Definition ex_src : list (Encoder.sevent (list N)) :=
   [Encoder.SPending; Encoder.SItem (Encoder.IOk [7]); Encoder.SItem (Encoder.IOk []);
